@@ -81,11 +81,11 @@ theorem C16c_no_leaked_maintenance_lock {c : Cfg} {s : State} (h : Reach c s) (h
 /-- non-vacuity: a remove and a concurrent capacity eviction of two different keys, both notified:
 two accepted notifications with distinct removal ids. -/
 def traceTwoNotifs : List (Nat × Label) :=
-  [(0, .call (.insert 0 10 2 none)), (0, .insMap), (0, .insEv), (0, .insAdd), (0, .coopSkip),
-   (0, .call (.insert 1 11 2 none)), (0, .insMap), (0, .insEv), (0, .insAdd), (0, .coopSkip),
-   (1, .call (.maint 0 16 true)), (1, .mLock), (1, .recv), (1, .recv), (1, .recv),
+  [(0, .call (.insert 0 10 2 none) false), (0, .insMap), (0, .insEv), (0, .insAdd), (0, .coopSkip),
+   (0, .call (.insert 1 11 2 none) false), (0, .insMap), (0, .insEv), (0, .insAdd), (0, .coopSkip),
+   (1, .call (.maint 0 16 true) false), (1, .mLock), (1, .recv), (1, .recv), (1, .recv),
    (1, .admit .admit), (1, .admit .admit), (1, .ttlAdvance []), (1, .ttiMap [] true), (1, .capLoad), (1, .capEvict [0] 2),
-   (0, .call (.remove 1)), (0, .rmMap), (1, .capMap true), (0, .rmPol), (0, .rmSub), (0, .rmNote true),
+   (0, .call (.remove 1) false), (0, .rmMap), (1, .capMap true), (0, .rmPol), (0, .rmSub), (0, .rmNote true),
    (1, .capSub), (1, .unlock)]
 
 example : (run Fv.Props.CacheConc.cfg3 init traceTwoNotifs).map (fun s => (s.notifs.map (·.rid), s.cur, s.dirty)) =
